@@ -122,10 +122,10 @@ def decode_harness(first: int | None, n_records: int | None = None, sub: int | N
             known = [s + 0x40 for s in registry_sids()] + [0x7F]
             I.assume(z3.And(*[b0 != k for k in known]))
         if sub is not None:
-            I.assume(z3.Length(pdu.t) >= 2)
+            I.assume(models.seq_len(pdu.t) >= 2)
             I.assume(pdu.t[1] == sub)
         if n_records is not None:
-            I.assume(z3.Length(pdu.t) == 3 + 4 * n_records)
+            I.assume(models.seq_len(pdu.t) == 3 + 4 * n_records)
         try:
             r = I.call(S.UDSResponse.parse_dynamic, pdu)
         except PyExc as e:
@@ -155,7 +155,8 @@ def make_dict_arg(I: Interp, name: str, kind: str, k: int) -> V:
     return VDict(items)
 
 
-def encode_harness(cname: str, cls: type, alts: dict[str, str], dict_size: int = 0):
+def encode_harness(cname: str, cls: type, alts: dict[str, str], dict_size: int = 0,
+                   rec_len: int | None = None):
     S = service_module()
     spec = iso.RESPONSES[cname]
     params = cs.param_alternatives(cls)
@@ -172,6 +173,8 @@ def encode_harness(cname: str, cls: type, alts: dict[str, str], dict_size: int =
                     "gallia.services.uds.core.constants", fromlist=["x"]))
                 if k == "tuple_int_int":
                     I.inputs[name] = v
+                if rec_len is not None and name == "dtc_and_status_record" and k == "bytes":
+                    I.assume(models.seq_len(v.t) == rec_len)
             args.append(v)
         try:
             obj = I.call(cls, *args)
@@ -195,6 +198,19 @@ def encode_harness(cname: str, cls: type, alts: dict[str, str], dict_size: int =
             I.prove("E-refuse(out-of-range-is-never-encoded)", ints)
             want = cs.layout(I, spec, view, False)
             I.prove("E-layout(pdu-equals-ISO-layout)", models.bytes_eq(I, pdu.t, want))
+            # the parser has to accept what respects the documented record lengths
+            I.assume(recs)
+            for f in spec["fields"]:
+                if f["kind"] == "dtc_dict" and f.get("max") is not None:
+                    if len(view.get(f["attr"]).items) > f["max"]:
+                        return
+                if f["kind"] == "ext_records" and not view.get(f["attr"]).items:
+                    return  # no extended data record: outside what the parser must accept
+            for f in spec["fields"]:
+                if f["kind"] == "did_records":
+                    rl = view.get(f["attr"][1])
+                    for x in (rl.items or []):
+                        I.assume(models.seq_len(x.t) >= 1)
         # the dynamic parser on the own bytes
         try:
             r = I.call(S.UDSResponse.parse_dynamic, pdu)
@@ -236,6 +252,7 @@ def alternatives(cls: type) -> list[dict[str, str]]:
 
 def db_harness(I: Interp) -> None:
     """DBHandler.insert_scan_result enqueues bytes_repr(response.pdu) for the response column."""
+    import gallia.command  # noqa: F401  (resolves the import cycle of gallia.db.handler)
     from gallia.db import handler as H
     S = service_module()
     src = inspect.getsource(H.DBHandler.insert_scan_result)
@@ -273,10 +290,10 @@ def build_units(tier: str) -> list[Unit]:
         if sid == 0x19:
             # sub-functions whose response keeps a dict are bounded to <= 3 records
             for sf in type1_subs:
-                for n in range(0, 4):
+                for n in range(0, 3 if tier == "quick" else 4):
                     units.append(Unit(f"decode/0x59/sub={sf:#04x}/records={n}",
                                       decode_harness(0x59, n, sf),
-                                      bounded="dict-backed DTC list bounded to <= 3 records"))
+                                      bounded="dict-backed DTC list bounded to <= 2 (quick) / 3 (thorough) records"))
             def other(I: Interp, base=decode_harness(0x59)) -> None:
                 base(I)
             units.append(Unit("decode/0x59/other-subfunctions", decode_0x59_other(type1_subs)))
@@ -295,6 +312,11 @@ def build_units(tier: str) -> list[Unit]:
             continue
         for alts in alternatives(cls):
             tag = ",".join(f"{k}={v}" for k, v in alts.items())
+            if alts.get("dtc_and_status_record") == "bytes" and any(
+                    f["kind"] == "dtc_dict" for f in iso.RESPONSES[cname]["fields"]):
+                # the bytes alternative is exactly what _from_pdu passes: covered by the decode
+                # units of sub-function families (bounded by record count)
+                continue
             if any(v.startswith("dict_") for v in alts.values()):
                 for k in range(0, 3):
                     units.append(Unit(f"encode/{cname}/{tag}/entries={k}",
